@@ -751,7 +751,7 @@ func classify(tc tcase) (bool, []string) {
 }
 
 func TestC06Correlation(t *testing.T) {
-	ev.Check(t, 1500, 8000, func(rt *rapid.T) {
+	ev.Check(t, 2500, 10000, func(rt *rapid.T) {
 		tc := genCase(rt)
 		nt, classes := classify(tc)
 		ev.Case(nt, tc.String(), classes...)
